@@ -174,7 +174,7 @@ pub(crate) mod verif_probe {
                 let mut t = RefTruth { status: b'I', ..RefTruth::default() };
                 let mut pending: Vec<Vec<u8>> = vec![];
                 let mut ignore_till_sync = false;
-                let mut stmts: HashMap<Vec<u8>, Vec<u8>> = HashMap::new();
+                let mut prepared: HashMap<Vec<u8>, Vec<u8>> = HashMap::new();
                 let mut portals: HashMap<Vec<u8>, Vec<u8>> = HashMap::new();
                 let cstrings = |body: &[u8], n: usize| -> Vec<Vec<u8>> {
                     let mut out = vec![]; let mut cur = vec![];
@@ -192,7 +192,10 @@ pub(crate) mod verif_probe {
                     let mut bytes = vec![code]; bytes.extend_from_slice(&len.to_be_bytes()); bytes.extend_from_slice(&body);
                     let mut deliver: Vec<Vec<u8>> = vec![];
                     let n = nreq; nreq += 1;
-                    let tag = format!("b{}r{:03}", be % 10, n % 1000);
+                    let tag6 = format!("b{}r{:03}", be % 10, n % 1000);
+                    // 8-byte row value: backend, request number, two hex digits of a hash of the statement executed
+                    let row_tag = |sql: &[u8]| -> String { use sha2::{Digest, Sha256}; let mut h = Sha256::new(); h.update(sql); format!("{}{:02x}", tag6, h.finalize()[0]) };
+                    let tag = tag6.clone();
                     let mut close = false;
                     let mut handled = false;
                     if t.copy_in {
@@ -228,8 +231,8 @@ pub(crate) mod verif_probe {
                                     else if u.starts_with("SET ") { t.dirty_set = true; deliver.push(pmsg(b'C', b"SET\0")); }
                                     else if u == "RESET ROLE" { t.role_set = false; deliver.push(pmsg(b'C', b"RESET\0")); }
                                     else if u == "RESET ALL" { t.dirty_set = false; deliver.push(pmsg(b'C', b"RESET\0")); }
-                                    else if u == "DISCARD ALL" { t.dirty_set = false; t.role_set = false; t.sql_prepared = false; t.named = 0; deliver.push(pmsg(b'C', b"DISCARD ALL\0")); }
-                                    else if u == "DEALLOCATE ALL" { t.sql_prepared = false; t.named = 0; deliver.push(pmsg(b'C', b"DEALLOCATE ALL\0")); }
+                                    else if u == "DISCARD ALL" { t.dirty_set = false; t.role_set = false; t.sql_prepared = false; t.named = 0; prepared.clear(); deliver.push(pmsg(b'C', b"DISCARD ALL\0")); }
+                                    else if u == "DEALLOCATE ALL" { t.sql_prepared = false; t.named = 0; prepared.clear(); deliver.push(pmsg(b'C', b"DEALLOCATE ALL\0")); }
                                     else if u.starts_with("PREPARE ") { t.sql_prepared = true; deliver.push(pmsg(b'C', b"PREPARE\0")); }
                                     else if u.starts_with("COPY ") && u.contains("FROM STDIN") { t.copy_in = true; deliver.push(pmsg(b'G', b"\0\0\0")); copy_started = true; break; }
                                     else if u.starts_with("COPY ") && u.contains("TO STDOUT") {
@@ -241,7 +244,7 @@ pub(crate) mod verif_probe {
                                         let mut rd = vec![0u8, 1, b'c', 0]; rd.extend_from_slice(&0i32.to_be_bytes()); rd.extend_from_slice(&0i16.to_be_bytes());
                                         rd.extend_from_slice(&25i32.to_be_bytes()); rd.extend_from_slice(&(-1i16).to_be_bytes()); rd.extend_from_slice(&(-1i32).to_be_bytes()); rd.extend_from_slice(&0i16.to_be_bytes());
                                         deliver.push(pmsg(b'T', &rd));
-                                        let mut dr = vec![0u8, 1]; dr.extend_from_slice(&6i32.to_be_bytes()); dr.extend_from_slice(tag.as_bytes());
+                                        let mut dr = vec![0u8, 1]; dr.extend_from_slice(&8i32.to_be_bytes()); dr.extend_from_slice(row_tag(s.as_bytes()).as_bytes());
                                         deliver.push(pmsg(b'D', &dr));
                                         deliver.push(pmsg(b'C', b"SELECT 1\0"));
                                     }
@@ -257,13 +260,18 @@ pub(crate) mod verif_probe {
                                 if !ignore_till_sync {
                                     match code {
                                         b'P' => { if body.first().copied().unwrap_or(0) != 0 { t.named += 1; }
-                                                  let cs = cstrings(&body, 2); stmts.insert(cs[0].clone(), cs[1].clone());
+                                                  let cs = cstrings(&body, 2); prepared.insert(cs[0].clone(), cs[1].clone());
                                                   pending.push(pmsg(b'1', b"")); }
-                                        b'B' => { let cs = cstrings(&body, 2); portals.insert(cs[0].clone(), cs[1].clone()); pending.push(pmsg(b'2', b"")); }
-                                        b'D' => pending.push(pmsg(b'n', b"")),
+                                        b'B' => { let cs = cstrings(&body, 2);
+                                                  if !prepared.contains_key(&cs[1]) { pending.push(pmsg(b'E', b"SERROR\0C26000\0Mprepared statement does not exist\0\0")); ignore_till_sync = true; }
+                                                  else { portals.insert(cs[0].clone(), cs[1].clone()); pending.push(pmsg(b'2', b"")); } }
+                                        b'D' => { let name = cstrings(&body[1..], 1)[0].clone();
+                                                  if body.first() == Some(&b'S') && !prepared.contains_key(&name) { pending.push(pmsg(b'E', b"SERROR\0C26000\0Mprepared statement does not exist\0\0")); ignore_till_sync = true; }
+                                                  else { pending.push(pmsg(b'n', b"")); } }
                                         b'E' => {
                                             let cs = cstrings(&body, 1);
-                                            let sql = portals.get(&cs[0]).and_then(|st| stmts.get(st)).cloned();
+                                            let sql = portals.get(&cs[0]).and_then(|st| prepared.get(st)).cloned();
+                                            let sql2 = sql.clone();
                                             let u = sql.map(|q| String::from_utf8_lossy(&q).trim().trim_end_matches(';').to_ascii_uppercase().split_whitespace().collect::<Vec<_>>().join(" "));
                                             let mut done = false;
                                             if let Some(u) = &u {
@@ -285,11 +293,12 @@ pub(crate) mod verif_probe {
                                                 }
                                             }
                                             if !done {
-                                                let mut dr = vec![0u8, 1]; dr.extend_from_slice(&6i32.to_be_bytes()); dr.extend_from_slice(tag.as_bytes());
+                                                let mut dr = vec![0u8, 1]; dr.extend_from_slice(&8i32.to_be_bytes());
+                                                dr.extend_from_slice(match &sql2 { Some(q) => row_tag(q), None => format!("{}00", tag6) }.as_bytes());
                                                 pending.push(pmsg(b'D', &dr)); pending.push(pmsg(b'C', b"SELECT 1\0"));
                                             }
                                         }
-                                        b'C' => pending.push(pmsg(b'3', b"")),
+                                        b'C' => { if body.first() == Some(&b'S') { let name = cstrings(&body[1..], 1)[0].clone(); prepared.remove(&name); } pending.push(pmsg(b'3', b"")); }
                                         _ => { deliver.append(&mut pending); }
                                     }
                                 }
@@ -424,6 +433,8 @@ pub(crate) mod verif_probe {
         }
         a_out.extend(drain(&mut a, 100).await);
         let paused_at_end = pool.paused();
+        // where a CancelRequest with a client key would be sent right now (A idle or gone)
+        let csmap_after_a: Vec<Value> = csmap.lock().iter().map(|(k, v)| json!([k.0, k.1, v.0, v.1])).collect();
         let mut b_out: Vec<u8> = vec![];
         let mut b_state = "not-run".to_string();
         if v["probe_b"].as_bool().unwrap_or(true) && !paused_at_end {
@@ -441,7 +452,7 @@ pub(crate) mod verif_probe {
             "delivered": r.delivered.iter().map(|d| hexs(d)).collect::<Vec<_>>(), "status_after": r.status_after,
             "before": {"status": r.before.status, "copy_in": r.before.copy_in, "dirty_set": r.before.dirty_set, "role_set": r.before.role_set,
                        "sql_prepared": r.before.sql_prepared, "named": r.before.named, "unsynced": r.before.unsynced}})).collect();
-        json!({"a_result": a_task_result, "a_out": hexs(&a_out), "b_out": hexs(&b_out), "b_state": b_state, "reqs": reqs, "paused_at_end": paused_at_end})
+        json!({"csmap_after_a": csmap_after_a, "a_result": a_task_result, "a_out": hexs(&a_out), "b_out": hexs(&b_out), "b_state": b_state, "reqs": reqs, "paused_at_end": paused_at_end})
     }
 
     /// Client A runs `prep` queries (simple protocol), then sends the raw `trigger` bytes and is awaited;
